@@ -2649,6 +2649,11 @@ func (d *decoderJsonBytes) swallow() {
 	d.d.nextValueBytes()
 }
 
+func (d *decoderJsonBytes) readArrayStart() int {
+	halt.onerror(d.err)
+	return d.d.ReadArrayStart()
+}
+
 func (d *decoderJsonBytes) nextValueBytes() []byte {
 	return d.d.nextValueBytes()
 }
@@ -6814,6 +6819,11 @@ func (d *decoderJsonIO) Release() {}
 
 func (d *decoderJsonIO) swallow() {
 	d.d.nextValueBytes()
+}
+
+func (d *decoderJsonIO) readArrayStart() int {
+	halt.onerror(d.err)
+	return d.d.ReadArrayStart()
 }
 
 func (d *decoderJsonIO) nextValueBytes() []byte {
